@@ -61,7 +61,10 @@ class RecordLoop:
                     if rng is not None:
                         res.setdefault(node.targets[0].id, []).append((rng, node))
                         if chain:
-                            self.transformed[node.targets[0].id] = (norm(node.value), node)
+                            plain = all(isinstance(c, ast.Call) and not c.args and not c.keywords
+                                        for c in ast.walk(node.value)
+                                        if isinstance(c, ast.Call))
+                            self.transformed[node.targets[0].id] = (norm(node.value), node, chain, plain)
         return res
 
     def slice_of(self, expr):
@@ -362,11 +365,45 @@ def check_raw_record_fields(ctx, rule, rl):
            'the record loop iterates the lines of the source as they are (readlines() or the '
            'handle itself), not a stripped or otherwise rewritten copy: trailing blanks are part '
            'of fixed-column records such as "TER   " (iterates: %s)' % it, rl.mod, rl.loop)
-    bad = sorted(rl.transformed.items())
+    # A local bound to a stripped slice is the same program as one that strips
+    # at every use (`name = rec[12:16].strip()` ... `name == 'N'` against
+    # `name = rec[12:16]` ... `name.strip() == 'N'`): harmless exactly when
+    # every use is a comparison with blank-free constants, which is what a
+    # strip at the use could be compared with as well.  Padding, case folding,
+    # replacement, or a strip with arguments are not comparisons of the raw
+    # columns any more.
+    bad = []
+    for name, (text, node, chain, plain) in sorted(rl.transformed.items()):
+        why = None
+        if not plain or any(c not in ('strip', 'rstrip', 'lstrip') for c in chain):
+            why = 'not a plain strip'
+        else:
+            for use in walk_no_nested(rl.fn):
+                if not (isinstance(use, ast.Name) and use.id == name and isinstance(use.ctx, ast.Load)):
+                    continue
+                par = use._parent
+                if not (isinstance(par, ast.Compare) and len(par.ops) == 1 and par.left is use
+                        and isinstance(par.ops[0], (ast.Eq, ast.NotEq, ast.In, ast.NotIn))):
+                    why = 'used outside a comparison: %s' % norm(par)[:50]
+                    break
+                other = par.comparators[0]
+                consts = None
+                if isinstance(other, ast.Constant) and isinstance(other.value, str) \
+                        and isinstance(par.ops[0], (ast.Eq, ast.NotEq)):
+                    consts = [other.value]
+                elif isinstance(other, (ast.List, ast.Tuple, ast.Set)) and all(
+                        isinstance(e, ast.Constant) and isinstance(e.value, str) for e in other.elts):
+                    consts = [e.value for e in other.elts]
+                if consts is None or any(c != c.strip() or not c for c in consts):
+                    why = 'compared with something other than blank-free constants: %s' % norm(par)[:50]
+                    break
+        if why:
+            bad.append((name, text, why, node))
     ctx.ob(rule, 'reader:record-fields-raw', not bad,
-           'record fields are compared as raw columns (%d slice locals; transformed: %s)'
-           % (len(rl.aliases), {k: v[0] for k, v in bad}), rl.mod,
-           bad[0][1][1] if bad else rl.loop)
+           'record fields are compared as raw columns, or stripped and compared with blank-free '
+           'constants (%d slice locals; transformed otherwise: %s)'
+           % (len(rl.aliases), {b[0]: (b[1], b[2]) for b in bad}), rl.mod,
+           bad[0][3] if bad else rl.loop)
 
 
 def check_membership_params_materialised(ctx, rule, rl):
